@@ -4,6 +4,7 @@
    tools/props/C13.py: the real state-machine thread against the extracted model on the same scripts).
    Quantified over every environment: any receive script (any bytes, chunkings, errors, waits, stops),
    any open and send behaviour, any number of state-machine iterations.                          *)
+From RtrV Require Base.Mem Gen.GeneratedFsm2 Rtr.FsmTie Rtr.FsmTie2 Rtr.ExpiryFrames.
 From RtrV Require Import Base.CSem Gen.Generated Rtr.RtrModel Rtr.VersionProofs Rtr.VersionLocal.
 Local Open Scope Z_scope.
 
@@ -72,6 +73,26 @@ Theorem C13_eod_format : forall p, nthb p 1 = c_EOD ->
   check_size p = true <-> ((nthb p 0 = 0 /\ get32 p 4 = 12) \/ (nthb p 0 = 1 /\ get32 p 4 = 24)).
 Proof. exact eod_format. Qed.
 
+(* Tie (a) for the functions the version rules live in.  rtr_sync (the receive loop that ignores Serial Notifies, the downgrade when
+   the cache hangs up before any session exists, the dispatch on the first PDU, the bookkeeping after a successful synchronisation) and
+   rtr_handle_error_pdu (the switch on the error code, the downgrade on Unsupported Protocol Version) are translated from /repo on every
+   run (effect mode, Gen/GeneratedFsm2.v: the do/while loop as a fuelled Fixpoint, loads from the receive buffer guarded) and proved
+   equal to the model's rtr_sync / handle_error_pdu (Rtr/FsmTie2.v), for every world with byte-valued input (Tm) and a version that
+   fits its C type.  "Downgrade tests has_received_pdus instead of request_session_id", "TR_INTR treated as success",
+   "request_session_id cleared before the records are stored" each break sync_loop_tie. *)
+Theorem C13_sync_translated : forall fuel w, Rtr.ExpiryFrames.Tm w -> (0 <= version (sk w) < 2^32)%Z ->
+  Rtr.FsmTie2.run_eff2 fuel (Gen.GeneratedFsm2.rtr_sync_gen fuel (Rtr.FsmTie.sock_store (sk w))) w = Some (rtr_sync fuel w).
+Proof. exact Rtr.FsmTie2.sync_tie_world. Qed.
+
+Theorem C13_error_pdu_translated : forall fuel len p w,
+  Forall Base.Mem.byte_ok p -> (8 <= zlen p)%Z -> (8 <= len)%Z -> (0 <= version (sk w) < 2^32)%Z ->
+  Rtr.FsmTie2.run_eff2 fuel (Gen.GeneratedFsm2.rtr_handle_error_pdu_gen (Rtr.FsmTie2.in_buffer len p) (Some 0%Z) (Rtr.FsmTie.sock_store (sk w))) w =
+  Some (match handle_error_pdu p w with Ok _ w' => Ok 0%Z w' | Exc x w' => Exc x w' end).
+Proof. exact Rtr.FsmTie2.handle_error_tie_world. Qed.
+
+Example C13_fsm2_translator_clean : Gen.GeneratedFsm2.fsm2_translator_problems = [].
+Proof. reflexivity. Qed.
+
 Print Assumptions C13_initial.
 Print Assumptions C13_monotone.
 Print Assumptions C13_first_pdu.
@@ -81,3 +102,5 @@ Print Assumptions C13_closed_before_session.
 Print Assumptions C13_fast_reconnect.
 Print Assumptions C13_enforced.
 Print Assumptions C13_eod_format.
+Print Assumptions C13_sync_translated.
+Print Assumptions C13_error_pdu_translated.
